@@ -57,12 +57,12 @@ PLAN = {
     "C17": [("plain", 4, 16)],
     "C18": [("race", 4, 16), ("plain", 2, 8)],
     "C19": [("plain", 4, 16)],
-    "C20": [("plain", 4, 16), ("race", 2, 8), ("asan", 0, 4)],
+    "C20": [("plain", 4, 16), ("race", 2, 8), ("asan", 0, 8)],
 }
 
 # sanitizer builds run every n-th case of each family (they are 3-10x slower)
 SUBSAMPLE = {("cover", "quick"): 10, ("cover", "thorough"): 200, ("C18", "cover", "quick"): 4, ("C18", "cover", "thorough"): 40,
-             ("race", "quick"): 8, ("race", "thorough"): 2, ("asan", "quick"): 8, ("asan", "thorough"): 2,
+             ("race", "quick"): 8, ("asan", "quick"): 8, ("asan", "thorough"): 12, ("race", "thorough"): 4,
              ("C18", "race", "quick"): 1, ("C18", "race", "thorough"): 1}
 
 for _p in PLAN:
